@@ -6,7 +6,7 @@ set -u
 id="$1"; shift
 d=/verif/seeded/$id
 wt=/tmp/seedconfirm-$id
-export CARGO_NET_OFFLINE=true CARGO_TARGET_DIR=/tmp/seedconfirm-target
+export CARGO_NET_OFFLINE=true CARGO_TARGET_DIR=${SEEDCONFIRM_TARGET:-/tmp/seedconfirm-target}
 git -C /repo worktree remove --force "$wt" >/dev/null 2>&1
 git -C /repo worktree add -q "$wt" HEAD || exit 2
 log=$d/confirmation.txt; : > $log
